@@ -147,8 +147,11 @@ inline std::string routeInvalid(const std::vector<P> &r, const P &src, const P &
         if (exempt && (*exempt)[s]) continue;
         if (pointInConvex(src, shapes[s]) == 2 || pointInConvex(dst, shapes[s]) == 2) continue;     // shape contains an endpoint
         for (size_t i = 1; i < r.size(); i++)
-            if (segEntersConvex(r[i - 1], r[i], shapes[s], margin))
-                return fmt("segment (%.10g,%.10g)-(%.10g,%.10g) passes through the interior of shape %zu", r[i - 1].x, r[i - 1].y, r[i].x, r[i].y, s);
+            if (segEntersConvex(r[i - 1], r[i], shapes[s], margin)) {
+                int onVerts = 0;     // known finding F26: a sight line through two vertices of one polygon is taken as free
+                for (auto &vtx : shapes[s]) if (ptSegDist(vtx, r[i - 1], r[i]) <= 1e-9) onVerts++;
+                return fmt("segment (%.10g,%.10g)-(%.10g,%.10g) passes through the interior of shape %zu%s", r[i - 1].x, r[i - 1].y, r[i].x, r[i].y, s, onVerts >= 2 ? " [through two of its vertices]" : "");
+            }
     }
     return "";
 }
